@@ -230,7 +230,9 @@ Definition name_INC : str := [95; 95; 73; 78; 67; 95; 95]%N.
 Definition name_DEC : str := [95; 95; 68; 69; 67; 95; 95]%N.
 Definition name_x0 : str := [120; 48]%N.
 Definition name_root : str := [35; 114; 111; 111; 116]%N.
-Definition root_ctx : str := [35; 114; 111; 111; 116; 95; 102; 105; 108; 101; 95; 99; 111; 110; 116; 101; 120; 116]%N.
+(* the generator's initial file state (gen.cpp, `.fs = {...}`), translated into Gen_Consts.v *)
+Definition root_ctx : str := gen_root_file.
+Definition root_line : Z := gen_root_line.
 
 (* strToIntSilent(c) *)
 Definition strToIntSilent_gen (tok : str) : Z := wrap_int (strtol tok).
@@ -426,7 +428,7 @@ Record genresult := mkGenRes {
 
 (* Theo::gen on the parse result: (parsed_correctly, errors, root) *)
 Definition gen_gen (cfg : cfgen) (parsed_ok : bool) (perrs : list serr) (root : option node) : result genresult :=
-  let g0 := mkGS [] [] [] [] [] [] [] [] [] 0 root_ctx 0 in
+  let g0 := mkGS [] [] [] [] [] [] [] [] [] 0 root_ctx root_line in
   let g1 := emit g0 (IPrepare (-1) (-1) 0) in
   let g2 := push_symbols g1 name_root in
   do g3 <-
